@@ -214,6 +214,10 @@ pub struct LayoutOpts {
     pub crlf: bool,
     pub final_newline: bool,
     pub several_per_line: bool,
+    /// byte length of one very long comment line at the top of the file (0 = none): lines around
+    /// and beyond the usual buffer sizes (8 KiB, 64 KiB)
+    #[serde(default)]
+    pub long_line: usize,
 }
 
 pub fn gen_layout(rng: &mut Rng) -> LayoutOpts {
@@ -229,6 +233,7 @@ pub fn gen_layout(rng: &mut Rng) -> LayoutOpts {
         crlf: rng.chance(1, 5),
         final_newline: rng.chance(4, 5),
         several_per_line: rng.chance(1, 5),
+        long_line: if rng.chance(1, 40) { *rng.pick(&[8191usize, 8192, 8193, 16385, 65535, 65536, 65537, 70001]) } else { 0 },
     }
 }
 
@@ -279,6 +284,18 @@ pub fn render(rng: &mut Rng, prog: &Program, o: &LayoutOpts) -> Rendered {
             pieces.push(Piece { kind: PieceKind::Decoration, text: s });
         }
     };
+    // one very long comment line whose text would be facts if it were not a comment
+    if o.long_line > 0 {
+        let mut line = String::from(*rng.pick(&["#", "% ", "//"]));
+        while line.len() + 6 <= o.long_line {
+            line.push_str(" k(a).");
+        }
+        while line.len() < o.long_line {
+            line.push('x');
+        }
+        deco(&mut pieces, format!("{}{}", line, nl));
+        comments += 1;
+    }
     // leading decoration
     if rng.chance(1, 4) {
         deco(&mut pieces, format!("{}{}", comment(rng), nl));
